@@ -114,6 +114,7 @@ rng_t    *sim_rng(void);                        /* scheduler stream; harness mus
 void  sim_violation(const char *cls, const char *fmt, ...) __attribute__((format(printf, 2, 3)));
 void  sim_violation_deferred(const char *cls, const char *fmt, ...) __attribute__((format(printf, 2, 3)));
 int   sim_violated(void);
+void  sim_fair_finish(void);                /* switch to round-robin scheduling for the rest of the run (before liveness checks) */
 void  sim_set_context_tag(const char *tag); /* appended as " [ctx: tag]" to the detail of any later violation (known-finding preconditions) */
 void  sim_log(const char *fmt, ...) __attribute__((format(printf, 1, 2))); /* trace only (no rng, no clock) */
 void  sim_hash_u64(uint64_t v);
